@@ -637,3 +637,17 @@ B("B215", "C09-T2", [(TRAP, "                successors = list(petri_net.success
 B("B216", "C09-T3", [(TRAP, "        return len(results) < solution_limit", "        return len(results) <= solution_limit", 2)], "callback lets the result grow to limit + 1")
 B("B217", "C13-WHILE", [(TGT, "                if s not in seen:\n                    seen.add(s)\n                    next_level.append(s)", "                if s not in seen:\n                    next_level.append(s)")],
   "target expansion: successors enqueued without being recorded as seen")
+B("B220", "C11-B", [(SPACE, "                    done = False\n                    restriction[var] = fn_value", "                    restriction[var] = fn_value")],
+  "a newly fixed value does not trigger another round")
+B("B221", "C11-B", [(SPACE, "            if fn_value is not None:\n                if var in restriction and restriction[var] != fn_value:",
+                     "            if fn_value is None:\n                candidates.remove(var)\n            else:\n                if var in restriction and restriction[var] != fn_value:")],
+  "undetermined variables are dropped from the candidates")
+B("B222", "C11-B", [(SPACE, "                    restriction[var] = fn_value\n                    result[var] = fn_value\n                    candidates.remove(var)",
+                     "                    restriction[var] = fn_value\n                    candidates.remove(var)")], "newly fixed values never reach the result")
+B("B223", "C11-C", [(SYMU, "    if f.is_false():\n        return 0\n    if f.is_true():\n        return 1\n", "    if f.is_false():\n        return 1\n    if f.is_true():\n        return 0\n")],
+  "constants evaluated to the opposite value")
+B("B224", "C11-C", [(SYMU, "    reduced_f = f.r_restrict(state)", "    reduced_f = f")], "function is never restricted to the state")
+B("B225", "C11-D", [(DRV, "        LDOIs[(var, 1)] = percolate_space_strict(network, {var: 1})", "        LDOIs[(var, 1)] = percolate_space_strict(network, {var: 0})")],
+  "LDOI of x=1 computed from x=0")
+B("B226", "C11-A", [(SPACE, "        result[var_name] = cast(Literal[0, 1], int(value))", "        if value:\n            result[var_name] = cast(Literal[0, 1], int(value))")],
+  "values fixed to 0 are dropped from the percolated space")
